@@ -226,12 +226,17 @@ type Stats struct {
 	// per input class (Case.Classes): what the reference reader says about the emitted texts, and how many
 	// texts the generator did not emit because its mirror of dqExcluded puts them outside the claim
 	ClassOK, ClassRej, ClassInadm, ClassDropped map[string]int64
+	// per entry of CharPool (chars.go): texts that carried it, what the reference reader said, single-fault
+	// positions confirmed on such texts
+	CharTexts, CharOK, CharRej, CharOutside, CharFaultsOK []int64
 }
 
 func NewStats() *Stats {
 	return &Stats{PerStream: map[string]int64{}, Classes: map[string]int64{}, Nontriv: lib.NewDistinct(),
 		InadmBy: map[string]int64{}, SpecOKBy: map[string]int64{},
-		ClassOK: map[string]int64{}, ClassRej: map[string]int64{}, ClassInadm: map[string]int64{}, ClassDropped: map[string]int64{}}
+		ClassOK: map[string]int64{}, ClassRej: map[string]int64{}, ClassInadm: map[string]int64{}, ClassDropped: map[string]int64{},
+		CharTexts: make([]int64, len(CharPool)), CharOK: make([]int64, len(CharPool)), CharRej: make([]int64, len(CharPool)),
+		CharOutside: make([]int64, len(CharPool)), CharFaultsOK: make([]int64, len(CharPool))}
 }
 
 // Dropped counts a text a generator did not emit because it lies outside the claim.
@@ -378,6 +383,7 @@ func (ck *Checker) Run(cases []Case) {
 	n := len(cases)
 	goOut := make([]string, n)
 	nameBad := make([]string, n) // C16: what the source-name oracle found for a case with a given name
+	carried := make([][]int, n)  // the classes of CharPool the text carries
 	var wg sync.WaitGroup
 	procs := ck.F.Procs
 	for p := 0; p < procs; p++ {
@@ -386,6 +392,7 @@ func (ck *Checker) Run(cases []Case) {
 			defer wg.Done()
 			for i := p; i < n; i += procs {
 				goOut[i] = GoParse(cases[i].Text, cases[i].file())
+				carried[i] = carriedChars(cases[i].Text)
 				if ck.C16 && cases[i].File != "" {
 					nameBad[i] = nameOracle(cases[i].Text, cases[i].File)
 				}
@@ -447,6 +454,17 @@ func (ck *Checker) Run(cases []Case) {
 				}
 			}
 		}
+		for _, k := range carried[i] {
+			st.CharTexts[k]++
+			switch {
+			case s == "inadmissible" || s == "illformed":
+				st.CharOutside[k]++
+			case s == "rej":
+				st.CharRej[k]++
+			default:
+				st.CharOK[k]++
+			}
+		}
 		switch {
 		case s == "inadmissible":
 			st.Inadm++
@@ -456,6 +474,9 @@ func (ck *Checker) Run(cases []Case) {
 			}
 		case s == "illformed":
 			st.Illformed++
+			for _, k := range c.Classes {
+				st.ClassInadm[k]++
+			}
 		case s == "rej":
 			st.SpecRej++
 			for _, k := range c.Classes {
@@ -509,7 +530,8 @@ func (ck *Checker) Run(cases []Case) {
 			} else if bad, want := notAMark(g, markAns[i]); bad != "" {
 				v, why = "violates", "C16: the error "+bad+" does not stand at a token, backslash or opener of its kind; "+
 					"computed from the text alone these stand at: "+want
-			} else if c.FaultClass != "" {
+			} else if c.FaultClass != "" && posAns[i] != "illformed" {
+				// (an ill-formed text is outside the claim: the reference reader has no positions for it)
 				want := strings.Replace(posAns[i], " ", ":", 1) + ":" + c.FaultClass
 				got, ok := "", false
 				if strings.HasPrefix(g, "rej ") {
@@ -538,8 +560,11 @@ func (ck *Checker) Run(cases []Case) {
 			}
 			continue
 		}
-		if ck.C16 && c.FaultClass != "" {
+		if ck.C16 && c.FaultClass != "" && posAns[i] != "illformed" {
 			st.FaultsOK++
+			for _, k := range carried[i] {
+				st.CharFaultsOK[k]++
+			}
 		}
 	}
 	ck.Res.Evaluations += int64(n)
@@ -598,6 +623,31 @@ func (ck *Checker) Finish() {
 			empty = append(empty, k)
 		}
 	}
+	// character classes (chars.go): how many texts carried each class anywhere, and — stream char_classes —
+	// on the line of a later keyword or offending token
+	chars := map[string]any{}
+	var noText []string
+	for i, c := range CharPool {
+		k := "placed:" + c.Name
+		m := map[string]int64{"texts": st.CharTexts[i], "spec_accepts": st.CharOK[i], "spec_rejects": st.CharRej[i],
+			"outside_claim_or_illformed":                 st.CharOutside[i],
+			"placed_before_keyword_or_fault_on_its_line": st.ClassOK[k] + st.ClassRej[k] + st.ClassInadm[k]}
+		if ck.C16 {
+			m["single_fault_positions_confirmed"] = st.CharFaultsOK[i]
+		}
+		chars[c.Name] = m
+		if st.CharTexts[i] == 0 {
+			noText = append(noText, c.Name)
+		}
+	}
+	d["char_classes"] = chars
+	d["char_classes_without_text"] = append([]string{}, noText...)
+	carriers := map[string]any{}
+	for _, k := range CharCarrierKinds() {
+		kk := "carrier:" + k
+		carriers[k] = map[string]int64{"spec_accepts": st.ClassOK[kk], "spec_rejects": st.ClassRej[kk], "outside_claim": st.ClassInadm[kk]}
+	}
+	d["char_class_carriers"] = carriers
 	d["linebreak_classes"] = lb
 	d["linebreak_classes_without_accepted_text"] = empty
 	if ck.C16 {
@@ -655,6 +705,10 @@ func Seeds() []string {
 		"a \"x\r \ny\";",
 		"a \"x \r  \n   y\";",
 		"a \"x\r\t\n\r \n\r\";",
+		// C16-l21: characters above U+FFFF count one column each (comment, both kinds of string, unquoted argument)
+		"module m { /* \U0001F600 */ prefix p;\n  description \"math \U0001D400\U0001D401\"; contact c;\n\torganization '\U00020000'; reference \U0001F680x; yang-version 1;\n}\n",
+		"// \U0001F600\nleaf a; /* \U0001F600 */ }\n",
+		"a \"\U00010000\\q\"; \U0010FFFF 'open",
 	}
 }
 
